@@ -13,6 +13,7 @@ ACTSETS = {
     "List": [("List", "")],
     "Tagging": [("Tagging", "")],
     "ReadB1": [("Read", "b1")],
+    "WriteB1": [("Write", "b1")],
     "WriteB2": [("Write", "b2")],
     "AdminB1": [("Admin", "b1")],
     "ReadBstar": [("Read", "b*")],
@@ -20,7 +21,7 @@ ACTSETS = {
     # only used for the anonymous identity
     "WriteB1List": [("Write", "b1"), ("List", "")],
 }
-ACT_NAMES = ["Admin", "Read", "Write", "List", "Tagging", "ReadB1", "WriteB2", "AdminB1", "ReadBstar", "None"]
+ACT_NAMES = ["Admin", "Read", "Write", "List", "Tagging", "ReadB1", "WriteB1", "WriteB2", "AdminB1", "ReadBstar", "None"]
 ANON_NAMES = ["absent", "Read", "WriteB1List"]
 POL_ACTS = ["s3:Get*", "s3:Put*", "s3:List*", "s3:*", "s3:DeleteObject", "s3:Tagging*"]
 POL_RES = ["arn:aws:s3:::b1/*", "arn:aws:s3:::*", "arn:aws:s3:::b2", "arn:aws:s3:::b2/*"]
@@ -94,6 +95,12 @@ def run(ctx):
             for k in sorted(by):
                 pick += rng.sample(by[k], min(3, len(by[k])))
             pick += rng.sample(hists, min(len(hists), 1000))
+            # validly signed requests of identities limited to b1 (and the anonymous identity limited to b1)
+            # addressed to b1x, whose name merely starts with "b1"
+            near = [h for h in hists if h[0]["bucket"] == "b1x" and
+                    ((h[0]["cred"] == "valid" and h[0]["acts"] in ("ReadB1", "WriteB1", "AdminB1")) or
+                     (h[0]["cred"] == "na" and h[0]["anon"] == "WriteB1List"))]
+            pick += rng.sample(near, min(len(near), 150))
             seen, uniq = set(), []
             for h in pick:
                 k = json.dumps(h, sort_keys=True)
@@ -172,7 +179,7 @@ def run(ctx):
             ctx.judge("S3AuthTrace", both, "trace_base.cfg", cons, nontrivial=nt,
                       mutate=mutate if ctx.seed % 2 else mutate_pol)
     ctx.rule = ("requests = TLC-enumerated abstract requests route(23) x auth style(10) x credential kind x identity "
-                "action set(10) x anonymous configuration(3) (quick: stratified seeded sample, thorough: all), each "
+                "action set(11) x target bucket (b1, and b1x whose name extends b1) x anonymous configuration(3) (quick: stratified seeded sample, thorough: all), each "
                 "instantiated as a real signed HTTP request against a real gateway+filer; non-trivial = the request "
                 "reached the filer (some filer call or a namespace change); policies = TLC-enumerated IAM documents of "
                 "1-2 statements given to the real GetActions; non-trivial = some action granted; distinct by hash")
